@@ -137,6 +137,20 @@ Section GenMain.
     exists c, gen_main a content = Fail c /\ c <> 0%Z.
   Proof. intros a content H. rewrite gen_main_doc. exact (cli_main_unequal_rows V parse print lib a content H). Qed.
 
+  (* the same from the file's own rows: whatever the delimiter the options select, some non-empty line holds
+     a different number of parsable tokens than the first *)
+  Theorem gen_main_ragged_rows : forall a content,
+    (forall d, exists r0 rows i r,
+        parse_rows V parse d (lines_fixed content) = r0 :: rows /\
+        nth_error (r0 :: rows) i = Some r /\ length r <> length r0) ->
+    exists c, gen_main a content = Fail c /\ c <> 0%Z.
+  Proof.
+    intros a content H. apply gen_main_unequal_rows. intro d.
+    destruct (H d) as [r0 [rows [i [r [Hrows [Hn Hl]]]]]].
+    destruct (to_matrix_unequal V r0 rows i r Hn Hl) as [k [Hk _]].
+    exists k. unfold read_data_fixed. rewrite Hrows. exact Hk.
+  Qed.
+
   Theorem gen_main_cases : forall a content,
     (exists c, gen_main a content = Fail c /\ c <> 0%Z) \/
     (exists out, gen_main a content = Done 0%Z out).
